@@ -1,6 +1,9 @@
 use alloc::sync::Arc;
 use core::array;
 use core::task::Waker;
+#[cfg(fc_verif_loom)]
+use loom::sync::{Mutex, MutexGuard};
+#[cfg(not(fc_verif_loom))]
 use std::sync::{Mutex, MutexGuard};
 
 use super::{InlineWakerArray, ReadinessArray};
